@@ -6,8 +6,11 @@ from ..sym import show
 
 PIECE = "re_compiler::ReCompiler::piece"
 AB = [
+    # the terminal the quantifier applies to (parse_terminal with or without the flags slice inherited from the Java code)
     ("RET", "try(ReCompiler::parse_terminal(a1, vec![0])) as Continue.0"),
+    ("RET", "try(ReCompiler::parse_terminal(a1)) as Continue.0"),
     ("TERM", "try(ReCompiler::parse_terminal(a1, vec![0]))"),
+    ("TERM", "try(ReCompiler::parse_terminal(a1))"),
     ("MES", "<Operation as OperationControl>::matches_empty_string(RET)"),
     ("ML", "<Operation as OperationControl>::get_match_length(RET)"),
 ]
@@ -308,7 +311,7 @@ def quant_reluctant(ctx):
                 stores = [e for e in pp.p.effects if e[0] == "store" and show(e[1]).endswith(".idx")]
                 consumed = any(re.match(r"^add\((1|2), a1(%s\d*)*\.idx\)$" % P, render(e[2])) for e in stores[-1:])
                 _group(g, "marker-consumed", consumed, "the reluctant marker is recognised but not consumed", loc)
-                if pp.kind in ("GreedyFixed",) or (pp.kind == "Repeat" and pp.args[2] != "false"):
+                if pp.kind in ("GreedyFixed",) or (pp.kind == "Repeat" and (len(pp.args) < 3 or pp.args[2] != "false")):
                     _group(g, "marker-selects-reluctant", False, "with the reluctant marker present the greedy operator %s is built" % pp.kind, loc)
                 elif pp.kind in ("ReluctantFixed", "Repeat"):
                     _group(g, "marker-selects-reluctant", True, "", loc)
